@@ -130,46 +130,52 @@ Theorem C01_chars_text_needs_ctx_ok :
     /\ slice s 2 5 = [10; 32; 10]%N.
 Proof. vm_compute. eexists _, _, _. split; reflexivity. Qed.
 
-(** Tolerant mode.  FULL STATEMENT (property text, DESIGN 6/C01):
+(** Tolerant mode, the clause of the property text (DESIGN 6/C01): for
+    whatever tolerant mode returns, for EVERY string and EVERY context, every
+    node of the tree has [pos <= pos_end <= |s|] and its children that have a
+    span (arguments, body items, list items) lie inside its span
+    ([ParserSpansTol.in_range_nested], a structural recursion over the whole
+    tree).  This clause used to be refuted ([\, x] with [\,] taking [r()] gave
+    [M(0,2, args=[L(3,3,[])])]): the recovery of a missing required delimited
+    argument placed the empty placeholder list after the whitespace in front
+    of the offending token while the reader is rewound to before it.  Since
+    repo fix d89cd3a (tracked by the model) the placeholder sits where the
+    reader is rewound to and the clause holds. *)
+Theorem C01_tolerant_nested : forall s cx n p,
+  parse_top s true cx (walker_state cx) = Ok (ONode (Some n)) p -> in_range_nested s n.
+Proof. exact parse_top_tolerant_nested. Qed.
 
-      Theorem C01_tolerant_nested : forall s cx n p,
-        parse_top s true cx (walker_state cx) = Ok (ONode (Some n)) p -> in_range_nested s n.
-
-    ([in_range_nested]: every node has [pos <= pos_end <= |s|] and its children
-    that have a span lie inside its span.)  This is FALSE of the model and of
-    the code: when a required delimited argument ([r()]) is missing and
-    whitespace precedes the offending token, the recovery records an empty node
-    list positioned after the whitespace and moves the reader back before it;
-    the macro node ends where the reader stands.  Witness: [\, x] with [\,]
-    taking [r()] gives [M(0,2, args=[L(3,3,[])])]. *)
-Theorem C01_tolerant_nested_refuted :
-  exists cx s n p,
-    parse_top s true cx (walker_state cx) = Ok (ONode (Some n)) p /\ ~ in_range_nested s n.
-Proof. exact tolerant_nested_refuted. Qed.
-
-(** What DOES hold in tolerant mode, for every string and EVERY context (no
-    context condition), proved through the same per-task induction with
-    postconditions for recovered parse errors ([ParserSpansTolerant.run_post_t]):
-    a tolerant parse that returns returns a node (never [None]), the reader
-    stays inside the input, and every node [m] of the tree satisfies
-    [tol_node s m]:
+(** The stronger structural statement the clause is derived from, for every
+    string and EVERY context, proved through the same per-task induction as
+    strict mode with postconditions for recovered parse errors
+    ([ParserSpansTolerant.run_post_t]): a tolerant parse that returns returns
+    a node (never [None]), the reader stays inside the input, and every node
+    [m] of the tree satisfies [tol_node s m]:
     - [pos <= pos_end <= |s|] (node lists: both ends present with
       [pos <= pos_end <= |s|], or both absent);
-    - the body of a group, math or environment node lies inside the node's span
-      and its items are a [chain] inside it (in document order, pairwise
-      non-overlapping); the items of every node list are a [chain] inside the
-      list's span;
-    - NOT claimed (false, see above): that the ARGUMENTS of a macro,
-      environment or specials node lie inside its span or are ordered; they
-      are only in range themselves (recursively [tol_node]).
+    - the arguments of a macro, environment or specials node, the body of a
+      group, math or environment node and the items of every node list are a
+      [chain] inside the node's span: each present child has a span, they are
+      in document order and pairwise non-overlapping.
     No text equalities (tolerant placeholders drop characters). *)
-Theorem C01_tolerant_nested_partial : forall s cx o p,
+Theorem C01_tolerant_ordered : forall s cx o p,
   parse_top s true cx (walker_state cx) = Ok o p ->
   p <= length s /\ exists n, o = ONode (Some n) /\ forall m, in_tree m n -> tol_node s m.
 Proof.
   intros s cx o p H. apply parse_top_tolerant in H. destruct H as (A & n & E & T).
   split; [exact A|]. exists n. split; [exact E|]. intros m I. eapply tol_in_tree; eauto.
 Qed.
+
+(** Non-vacuity of [C01_tolerant_nested] on the former counterexample: [\, x]
+    with [\,] taking [r()], whitespace allowed: the placeholder of the missing
+    argument is the empty list (2,2) inside the macro (0,2). *)
+Example C01_tolerant_nested_nonvacuous :
+  exists items p,
+    parse_top s_required true cx_required (walker_state cx_required)
+      = Ok (ONode (Some (NList (Some 0) (Some 4) items))) p /\
+    exists m po, nth_error items 0 = Some (Some (NMacro 0 2 m [44%N] po
+                                     (Some ([[114; 40; 41]%N], [Some (NList (Some 2) (Some 2) [])])))).
+Proof. exact tolerant_nested_former_witness. Qed.
 
 (** The in-range half of the tolerant clause, spelled out for every node. *)
 Theorem C01_tolerant_in_range : forall s cx n p,
@@ -208,6 +214,6 @@ Print Assumptions C01_strict_shape.
 Print Assumptions C01_strict_any_fuel.
 Print Assumptions C01_default_ctx_ok.
 Print Assumptions C01_chars_text_needs_ctx_ok.
-Print Assumptions C01_tolerant_nested_refuted.
-Print Assumptions C01_tolerant_nested_partial.
+Print Assumptions C01_tolerant_nested.
+Print Assumptions C01_tolerant_ordered.
 Print Assumptions C01_tolerant_in_range.
